@@ -2,8 +2,8 @@
    code for the functions the translator covers: every definition s_<f> of gen/SrcSparse.v (regenerated from the Rust
    source by driver/rust2coq.py on this run) equals its hand-written counterpart, for every arithmetic and every value of
    the six public fields (well-formed or not; no hypothesis).
-   Not translated (the translator raises TieBroken on them if asked): from_triplets (sort_by_key with a closure, iteration
-   over drain(..)), get / insert (`return` from inside a `for` loop). *)
+   Not translated (the translator raises TieBroken on it if asked): from_triplets (sort_by_key with a closure, iteration
+   over drain(..)). *)
 From Coq Require Import List Arith ZArith Lia Bool.
 From OV Require Import Base.Panic Base.Arith Model.Vector Model.Matrix Model.Sparse Model.Iter gen.SrcPrelude gen.SrcSparse Proofs.SrcEqBase.
 Import ListNotations.
@@ -108,6 +108,50 @@ Proof.
   unfold R3. intros [a c] st [Ea _]. cbn [fst] in Ea. subst a. reflexivity.
 Qed.
 
+(* a search loop that returns from inside (`for k .. { if test { ..; return } }  rest`) against the model's
+   find-then-finish formulation (for_find); the state is not changed by the passes that do not return *)
+Lemma for_ret_find {S X R} n lo (test : nat -> res (option X)) (fin : X -> res R) (K : S -> res R)
+      (body : nat -> S -> res (S + R)) (s0 : S) :
+  (forall i, body i s0 = let* o := test i in
+                         match o with Some x => let* r := fin x in Ok (inr r) | None => Ok (inl s0) end) ->
+  (let* o := for_ret_from n lo body s0 in match o with inl s => K s | inr r => Ok r end)
+  = (let* hit := find_from n lo test in match hit with Some x => fin x | None => K s0 end).
+Proof.
+  intros Hb. revert lo; induction n as [|n IH]; intros lo; cbn [for_ret_from find_from bind]; [reflexivity|].
+  rewrite Hb, !bind_assoc. destruct (test lo) as [[x|]|k]; cbn [bind]; [|apply IH|reflexivity].
+  destruct (fin x); reflexivity.
+Qed.
+
+Lemma src_sp_get (s : sparse A) (row col : nat) : s_sp_get s row col = sp_get s row col.
+Proof.
+  unfold s_sp_get, sp_get, sp_scan, for_find, for_ret.
+  destruct (sp_rows s <=? row); [reflexivity|]. destruct (sp_cols s <=? col); [reflexivity|].
+  destruct (length (sp_col_start s) <=? col); [reflexivity|].
+  apply bind_ext; intros ci.
+  apply (for_ret_find _ _ _ (fun k => let* v := rd (sp_val s) k in Ok (Some v)) (fun _ => Ok None)).
+  intros k. destruct (rd (sp_row_index s) k) as [r|]; cbn [bind]; [|reflexivity].
+  destruct (r =? row); cbn [bind]; [|reflexivity].
+  destruct (rd ci k) as [c|]; cbn [bind]; [|reflexivity].
+  destruct (c =? col); cbn [bind]; [|reflexivity].
+  destruct (rd (sp_val s) k); reflexivity.
+Qed.
+
+Lemma src_sp_insert (s : sparse A) (row col : nat) (x : T A) : s_sp_insert s row col x = sp_insert s row col x.
+Proof.
+  unfold s_sp_insert, sp_insert, sp_scan, for_find, for_ret.
+  destruct (sp_rows s <=? row); [reflexivity|]. destruct (sp_cols s <=? col); [reflexivity|].
+  destruct (length (sp_col_start s) <=? col); [reflexivity|].
+  apply bind_ext; intros ci.
+  apply (for_ret_find _ _ _
+           (fun k => let* v := upd (sp_val s) k x in
+                     Ok (mkS (sp_rows s) (sp_cols s) (sp_nonzero s) v (sp_row_index s) (sp_col_start s)))
+           (fun s' => let* ts := sp_to_triplets s' in sp_from_triplets (sp_rows s') (sp_cols s') (ts ++ [(row, col, x)]))).
+  intros k. destruct (rd (sp_row_index s) k) as [r|]; cbn [bind]; [|reflexivity].
+  destruct (r =? row); cbn [bind]; [|reflexivity].
+  destruct (rd ci k) as [c|]; cbn [bind]; [|reflexivity].
+  destruct (c =? col); cbn [bind]; [|reflexivity].
+  destruct (upd (sp_val s) k x); reflexivity.
+Qed.
 End SrcEqSparse.
 
 (* identity_preconditioner is modelled in Model/Iter.v (package C08), over an arithmetic with a square root *)
